@@ -105,7 +105,12 @@ def run_bounded(prop, name, tier, seed, shard, nshards):
     try:
         if os.environ.get('PV_NO_GUARDS') != '1':
             from . import guards
-            n_guarded = guards.install(ctx, prop, anchored_modules(prop))
+            import sys
+            cmod = sys.modules.get(g.fn.__module__)
+            exempt = getattr(cmod, 'GUARD_EXEMPT', {})
+            n_guarded = guards.install(ctx, prop, anchored_modules(prop), {k: v[0] for k, v in exempt.items()})
+            for k, v in exempt.items():
+                ctx.note(f"frame guard exemption {k}: {v[0]} - {v[1]}")
             ctx.note(f"frame guards on {n_guarded} public callables of the anchored modules (arguments and accessor payloads compared with snapshots around every outermost call)")
         g.fn(ctx)
     except Exception as e:   # noqa
